@@ -594,6 +594,34 @@ def missing_typed(err):
         _MISSING = re.compile(r"no method named `(\w+)` found for struct `(?:\w+::)*\w+<(?:\w+, )?(?:\w+::)*(\w+)>`")
     return set(_MISSING.findall(err))
 
+def map_op_line(line, m):
+    """an operation line `<op args> ; <sigma> ; <script>` with the names renamed: the arguments of the operation and
+    the names in sigma, and inside script entries only the names (`a=G~<name>`, `w=<field>~<n>`) - never the keys
+    `b=`, `x=`, `s=`, `a=`, `w=`, which a state or an event may well be called"""
+    parts = line.split(' ; ')
+    if len(parts) != 3:
+        return map_tokens(line, m)
+    head = parts[0].split(' ')
+    head = head[:1] + [map_tokens(t, m) for t in head[1:]]
+    sigma = map_tokens(parts[1], m)
+    ents = []
+    for ent in parts[2].split(' '):
+        kvs = []
+        for kv in ent.split(','):
+            if '=' in kv:
+                k, v = kv.split('=', 1)
+                if k == 'a' and '~' in v:
+                    t_, n_ = v.split('~', 1)
+                    v = t_ + '~' + map_tokens(n_, m)
+                elif k == 'w' and '~' in v:
+                    f_, n_ = v.split('~', 1)
+                    v = map_tokens(f_, m) + '~' + n_
+                kvs.append(k + '=' + v)
+            else:
+                kvs.append(kv)
+        ents.append(','.join(kvs))
+    return ' ; '.join([' '.join(head), sigma, ' '.join(ents)])
+
 def gen_defs(tier, seed):
     cfg = TIERS[tier]
     rng = random.Random(seed * 7919 + 13)
@@ -885,7 +913,7 @@ def run(tier, seed, work, repo, suspects=None, strict_suspects=None):
                     continue
                 if any(o.split()[0] in ('habandon', 'tabandon', 'hnopoll', 'tnopoll') for o in sc['ops']):
                     continue
-                ops = sc['ops'] if t['twin_kind'] == 'sync' else [map_tokens(o, t['nm']) for o in sc['ops']]
+                ops = sc['ops'] if t['twin_kind'] == 'sync' else [map_op_line(o, t['nm']) for o in sc['ops']]
                 twin_scns.append({'sid': sc['sid'] + '.' + t['twin_kind'], 'of': sc, 'twin': t, 'ops': ops})
         impl, rc, err = T.run_impl_scenarios(binary, [(s['sid'], s['x']['mod'], s['ops']) for s in scns] +
                                              [(s['sid'], s['twin']['mod'], s['ops']) for s in twin_scns])
